@@ -1,0 +1,28 @@
+//go:build verif
+
+package ro
+
+import "sync/atomic"
+
+// Verification hooks (build tag "verif" only; see /verif/DESIGN.md section 4.3).
+// A hook is a named point next to a lock boundary or an unlock-then-emit window. The verification
+// harness installs a function that either yields (to widen race windows under a seeded scheduler)
+// or blocks (to force a schedule computed by the TLA+ model checker). Without the build tag
+// verifPoint is an empty function and none of this exists.
+
+var verifHook atomic.Value // func(point string, obj any)
+
+// SetVerifHook installs (or, with nil, removes) the hook function.
+func SetVerifHook(f func(point string, obj any)) {
+	if f == nil {
+		verifHook.Store((func(string, any))(nil))
+		return
+	}
+	verifHook.Store(f)
+}
+
+func verifPoint(point string, obj any) {
+	if f, ok := verifHook.Load().(func(string, any)); ok && f != nil {
+		f(point, obj)
+	}
+}
